@@ -100,31 +100,39 @@ Definition update_node (is_root : bool) (t : pn) (st : pstats) : pn * pstats :=
   else (with_numbers t phi delta (n_pdepth t) (n_kids t), st).
 
 (* expand: children in REVERSE creation order (each new child becomes firstChild); stops after a child with delta = 0 *)
+Definition new_child (and_parent : bool) (cur : position) (path : list (position * bool)) (m : rmove) (q : position) : pn :=
+  let reversible := (5 <=? mT m) &&
+                    (let '(dx, dy) := slide_dest m in
+                     let i := uint_of_int (dx + dy * Z.of_N (size cur)) in negb (has (Standing cur) i && (has (White cur) i || has (Black cur) i))) in
+  let irrev := negb reversible in
+  let and_node := negb and_parent in
+  let value := evaluate_node irrev ((q, irrev) :: path) in
+  let '(phi, delta) := leaf_numbers and_node value q in
+  PN (m) (phi) (delta) (value) (irrev) (and_node) (false) (0) ([]).
+
+Definition bump_nodes (st : pstats) : pstats :=
+  {| p_nodes := p_nodes st + 1; p_proved := p_proved st; p_disproved := p_disproved st; p_dropped := p_dropped st;
+     p_expanded := p_expanded st; p_maxdepth := p_maxdepth st |}.
+
+Fixpoint gen_kids (and_parent : bool) (cur : position) (path : list (position * bool)) (ms : list rmove) (kids : list pn) (st : pstats)
+  : list pn * pstats :=
+  match ms with
+  | [] => (kids, st)
+  | m :: r =>
+    match pmv cur m with
+    | Ok q =>
+      let st := bump_nodes st in
+      let child := new_child and_parent cur path m q in
+      if n_delta child =? 0 then (child :: kids, st) else gen_kids and_parent cur path r (child :: kids) st
+    | _ => gen_kids and_parent cur path r kids st
+    end
+  end.
+
 Definition expand_node (t : pn) (path : list (position * bool)) (st : pstats) : pn * pstats :=
   match path with
   | [] => (t, st)
   | (cur, _) :: _ =>
-    let '(kids, st) :=
-      (fix gen (ms : list rmove) (kids : list pn) (st : pstats) : list pn * pstats :=
-         match ms with
-         | [] => (kids, st)
-         | m :: r =>
-           match pmv cur m with
-           | Ok q =>
-             let st := {| p_nodes := p_nodes st + 1; p_proved := p_proved st; p_disproved := p_disproved st; p_dropped := p_dropped st;
-                          p_expanded := p_expanded st; p_maxdepth := p_maxdepth st |} in
-             let reversible := (5 <=? mT m) &&
-                               (let '(dx, dy) := slide_dest m in
-                                let i := uint_of_int (dx + dy * Z.of_N (size cur)) in negb (has (Standing cur) i && (has (White cur) i || has (Black cur) i))) in
-             let irrev := negb reversible in
-             let and_node := negb (n_and t) in
-             let value := evaluate_node irrev ((q, irrev) :: path) in
-             let '(phi, delta) := leaf_numbers and_node value q in
-             let child := (PN (m) (phi) (delta) (value) (irrev) (and_node) (false) (0) ([])) in
-             if delta =? 0 then (child :: kids, st) else gen r (child :: kids) st
-           | _ => gen r kids st
-           end
-         end) (all_moves cur) [] st in
+    let '(kids, st) := gen_kids (n_and t) cur path (all_moves cur) [] st in
     let d := N.of_nat (length path) in             (* p.depth() + 1 *)
     ((PN (n_move t) (n_phi t) (n_delta t) (n_value t) (n_irrev t) (n_and t) (true) (n_pdepth t) (kids)),
      {| p_nodes := p_nodes st; p_proved := p_proved st; p_disproved := p_disproved st; p_dropped := p_dropped st;
@@ -132,32 +140,40 @@ Definition expand_node (t : pn) (path : list (position * bool)) (st : pstats) : 
   end.
 
 (* one iteration.  Stop 0: the node limit was hit at the selected leaf (the Go loop breaks); Stop 1: a Go panic
-   ("consistency error" / "failed to descend"); Stop 2: the model ran out of descent fuel *)
+   ("consistency error" / "failed to descend"); Stop 2: the model ran out of descent fuel; Stop 3: see pick_kid *)
 Inductive ires := Step (t : pn) (st : pstats) | Stop (why : N).
+
+Definition set_kids (t : pn) (kids : list pn) : pn :=
+  PN (n_move t) (n_phi t) (n_delta t) (n_value t) (n_irrev t) (n_and t) (true) (n_pdepth t) (kids).
+
+(* selectMostProving at one node: the first child with delta = phi; `descend` is the rest of the iteration below that child *)
+Fixpoint pick_kid (descend : pn -> list (position * bool) -> pstats -> ires) (is_root : bool) (t : pn)
+         (path : list (position * bool)) (st : pstats) (before l : list pn) : ires :=
+  match l with
+  | [] => Stop 1                                   (* "consistency error" *)
+  | c :: r =>
+    if n_delta c =? n_phi t then
+      (* a solved child can only be selected when a disproof sum has saturated at 2^32-1 (more than 4*10^9
+         pending leaves): the Go code would go on and expand a finished leaf or panic on a dropped subtree; the
+         model gives up (Stop 3), which the driver reports - it has never happened *)
+      if (n_phi c =? 0) || (n_delta c =? 0) then Stop 3 else
+      match path with
+      | (cur, _) :: _ =>
+        match pmv cur (n_move c) with
+        | Ok q => match descend c ((q, n_irrev c) :: path) st with
+                  | Step c' st' =>
+                    let '(t2, st2) := update_node is_root (set_kids t (rev before ++ c' :: r)) st' in Step t2 st2
+                  | Stop w => Stop w end
+        | _ => Stop 1                               (* "failed to descend" *)
+        end
+      | [] => Stop 1
+      end
+    else pick_kid descend is_root t path st (c :: before) r
+  end.
 
 Fixpoint iterate (fuel : nat) (is_root : bool) (t : pn) (path : list (position * bool)) (st : pstats) : ires :=
   match fuel with O => Stop 2 | S f =>
-    if n_expanded t then
-      (* selectMostProving: the first child with delta = phi *)
-      (fix pick (before : list pn) (l : list pn) : ires :=
-         match l with
-         | [] => Stop 1                                   (* "consistency error" *)
-         | c :: r =>
-           if n_delta c =? n_phi t then
-             match path with
-             | (cur, _) :: _ =>
-               match pmv cur (n_move c) with
-               | Ok q => match iterate f false c ((q, n_irrev c) :: path) st with
-                         | Step c' st' =>
-                           let t' := (PN (n_move t) (n_phi t) (n_delta t) (n_value t) (n_irrev t) (n_and t) (true) (n_pdepth t) (rev before ++ c' :: r)) in
-                           let '(t2, st2) := update_node is_root t' st' in Step t2 st2
-                         | Stop w => Stop w end
-               | _ => Stop 1                               (* "failed to descend" *)
-               end
-             | [] => Stop 1
-             end
-           else pick (c :: before) r
-         end) [] (n_kids t)
+    if n_expanded t then pick_kid (iterate f false) is_root t path st [] (n_kids t)
     else
       if (0 <? pc_maxnodes cfg) && (pc_maxnodes cfg <? live st) then Stop 0 else
       let '(t1, st1) := expand_node t path st in
